@@ -599,6 +599,17 @@ class _Fold(ast.NodeTransformer):
             if vals is not None and isinstance(g.target, ast.Name) and not g.ifs and not g.is_async:
                 elts = [self.visit(_SubstName(g.target.id, v).visit(copy.deepcopy(node.elt))) for v in vals]
                 return ast.List(elts=elts, ctx=ast.Load())
+            # [f(i, j) for i, j in ((0, 0), (1, 0))]: a literal sequence of literal tuples, unpacked into plain names
+            if (isinstance(g.iter, (ast.Tuple, ast.List)) and 0 < len(g.iter.elts) <= 8 and isinstance(g.target, (ast.Tuple, ast.List)) and not g.ifs and not g.is_async
+                    and all(isinstance(t, ast.Name) for t in g.target.elts)
+                    and all(isinstance(x, (ast.Tuple, ast.List)) and len(x.elts) == len(g.target.elts) and not any(isinstance(y, ast.Starred) for y in x.elts) for x in g.iter.elts)):
+                out = []
+                for x in g.iter.elts:
+                    elt = copy.deepcopy(node.elt)
+                    for t, v in zip(g.target.elts, x.elts):
+                        elt = _SubstName(t.id, copy.deepcopy(v)).visit(elt)
+                    out.append(self.visit(elt))
+                return ast.List(elts=out, ctx=ast.Load())
         return node
 
     def visit_Subscript(self, node: ast.Subscript):
